@@ -252,6 +252,19 @@ def rule_announce(ctx, res, content=True):
         if names[-1] == 'into_iter':
             names = names[:-1]
         want_names = ['src', 'iter', 'filter', 'take']
+        if names in (['src'], ['src', 'iter']) and self_field(pl[0][1], 'all_sorted_nodes'):
+            # form C: an explicit loop over the candidate list with a counter:
+            #   for (_, node, _) in &all_sorted_nodes { if picked >= N { break } let Some(token) = tokens.get(node) else { continue }; picked += 1; send .. }
+            okc, whyc = _announce_form_c(ctx, res, b, p, e, dest, f.get('token'), nx)
+            if content:
+                if not (self_field(f.get('id'), 'this_node_id') and self_field(f.get('info_hash'), 'target_id') and is_param(strip_transparent(f.get('port')), 'port')):
+                    okc, whyc = False, 'id / info_hash / port are not own id / searched hash / configured port'
+                if not is_generate(strip_transparent(m[2].get('transaction_id'))):
+                    okc, whyc = False, 'transaction id not from the search\'s generator'
+            if not okc:
+                ok = False
+                why = whyc
+            continue
         if names == ['src', 'iter', 'filter_map', 'take'] and self_field(pl[0][1], 'all_sorted_nodes'):
             # form B: `.filter_map(|(_, node, _)| announce_tokens.get(node).map(|token| (node, token))).take(N)`:
             # the loop element is (node, that node's token)
@@ -310,6 +323,57 @@ def rule_announce(ctx, res, content=True):
                 why = 'filter is not announce_tokens.contains_key(node)'
     res.check(ok, 'FLOW', b.path, 'each announce goes to a node of all_sorted_nodes.iter().filter(has token).take(ANNOUNCE_PICK_NUM) with that node\'s token, own id, searched hash, configured port',
               site=b.span, detail=why, key='announce-content')
+
+
+def _announce_form_c(ctx, res, b, p, send, dest, tok, nx):
+    from . import panics
+    elem = ('field', ('downcast', nx[0], 'Some'), '0')
+    # (1) a counter below ANNOUNCE_PICK_NUM is required on the path
+    ctr = None
+    for c in p.conds:
+        rel, a, b2, truth = literal(c)
+        if rel == 'lt' and truth is True and isinstance(a, tuple) and a and a[0] == 'loopvar' and term_int(b2) == 8 and strip_transparent(b2)[2] == 'action::lookup::ANNOUNCE_PICK_NUM':
+            ctr = a
+        # `if picked == N { break }` at the top of every iteration is as good: the counter moves in steps of one from 0
+        if rel == 'eq' and truth is False:
+            for x, y in ((a, b2), (b2, a)):
+                if isinstance(x, tuple) and x and x[0] == 'loopvar' and isinstance(y, tuple) and term_int(y) == 8 and strip_transparent(y)[2] == 'action::lookup::ANNOUNCE_PICK_NUM':
+                    ctr = x
+    if ctr is None:
+        return False, 'no `counter < ANNOUNCE_PICK_NUM` test on the way to the announce'
+    # (2) the counter starts at 0 and its only other assignment is counter + 1
+    ds = panics.defs_of(b, ctr[1])
+    inits = [d for d in ds if d[0] == 'assign' and d[1]['k'] == 'use' and d[1]['op'].get('k') == 'const' and d[1]['op'].get('int') == 0]
+    steps = []
+    for d in ds:
+        if d in inits:
+            continue
+        good = False
+        if d[0] == 'assign' and d[1]['k'] == 'use' and d[1]['op'].get('k') in ('move', 'copy'):
+            pl = d[1]['op']['place']
+            if len(pl['p']) == 1 and isinstance(pl['p'][0], dict) and pl['p'][0].get('n') == '0':
+                dd = panics.defs_of(b, pl['l'])
+                if len(dd) == 1 and dd[0][0] == 'assign' and dd[0][1]['k'] == 'bin' and dd[0][1]['op'] == 'AddWithOverflow':
+                    a_, b_ = dd[0][1]['a'], dd[0][1]['b']
+                    good = a_.get('k') in ('copy', 'move') and a_['place']['l'] == ctr[1] and not a_['place']['p'] and b_.get('k') == 'const' and b_.get('int') == 1
+        steps.append(good)
+    if len(inits) != 1 or not steps or not all(steps):
+        return False, 'the announce counter is not `0, then +1 per announce`'
+    # (3) the increment happens on this path before the send
+    idx = p.effects.index(send)
+    inc = [i for i, x in enumerate(p.effects[:idx]) if x[0] == 'assert' and x[1] == 'overflow:Add' and x[2][0] == 'overflow' and strip_transparent(x[2][1][2]) == ctr and term_int(x[2][1][3]) == 1]
+    if not inc:
+        return False, 'an announce is sent without counting it'
+    # (4) the token is the one stored for the loop node, the destination its address
+    tk = strip_transparent(tok)
+    g = find_calls(tk, '::get')
+    if not (g and self_field(g[0][2][0], 'announce_tokens') and find_calls(g[0][2][1], '::next') == nx and field_chain(strip_transparent(g[0][2][1]))[-1:] == ['1']):
+        return False, 'token is not announce_tokens[the loop node]'
+    if not any(literal(c)[0] == 'variant' and literal(c)[1] == g[0] and option_is_some(literal(c)[2]) is True for c in p.conds):
+        return False, 'token lookup not tested'
+    if field_chain(dest)[-2:] != ['1', 'addr']:
+        return False, 'destination is not the address of the loop node'
+    return True, ''
 
 
 def _announce_form_b(ctx, res, pl, dest, tok, nx):
@@ -1001,6 +1065,82 @@ def _iter_domain(ctx, res, t):
     return src, preds
 
 
+def _min_loop_guard(ctx, res, b, s, p, pick):
+    from . import panics
+    guard = None
+    for c in p.conds:
+        l = literal(c)
+        if l[0] == 'lt' and l[3] is True and isinstance(l[1], tuple) and l[1] and l[1][0] == 'loopvar':
+            guard = l
+    if guard is None:
+        return False, None
+    X = guard[1]
+    D = strip_transparent(guard[2])
+    s.loop_info()
+    comp = s._loop_of_head.get(X[3])
+    if not comp:
+        return False, 'the running minimum is not loop-carried'
+    ds = panics.defs_of(b, X[1])
+    init = [d for d in ds if d[2] not in comp]
+    steps = [d for d in ds if d[2] in comp]
+    if len(init) != 1 or not steps:
+        return False, 'the running minimum has no single initial value'
+    # initial value = the distance to beat (the value it is later compared with)
+    pre = [q for q in s.paths if init[0][2] in q.blocks]
+    iv = init[0][1]
+    if not (init[0][0] == 'assign' and iv['k'] == 'use'):
+        return False, 'the running minimum does not start from the distance to beat'
+    # every assignment inside the loop happens on an iteration whose node was tested to be un-requested
+    src = None
+    srcs = set()
+    for q in s.paths:
+        if X[3] not in q.blocks:
+            continue
+        hit = [d for d in steps if d[2] in q.blocks]
+        if not hit:
+            continue
+        order = {bb: i for i, bb in enumerate(q.blocks)}
+        unreq = False
+        for c in q.conds:
+            l = literal(c)
+            if l[0] == 'bool' and l[3] is False and isinstance(l[1], tuple) and l[1][0] == 'call' and l[1][1].split('::')[-1] == 'contains' \
+                    and self_field(l[1][2][0], 'requested_nodes') and find_calls(l[1][2][1], '::next') and c[2] in comp and order.get(c[2], 0) < order.get(hit[0][2], 0):
+                unreq = True
+                nx = find_calls(l[1][2][1], '::next')[0]
+                it = strip_transparent(nx[2][0])
+                while isinstance(it, tuple) and it and it[0] == 'call' and it[1].split('::')[-1] in ('into_iter', 'iter', 'deref'):
+                    it = strip_transparent(it[2][0])
+                src = it
+                srcs.add(fmt(strip_transparent(it)))
+        if not unreq:
+            # .. or the loop already runs over `nodes.iter().filter(|n| !requested.contains(n))`
+            nxs = [literal(c)[1] for c in q.conds if c[2] in comp and literal(c)[0] == 'variant' and isinstance(literal(c)[1], tuple) and literal(c)[1][0] == 'call' and literal(c)[1][1].split('::')[-1] == 'next']
+            if nxs:
+                it = strip_transparent(nxs[0][2][0])
+                while isinstance(it, tuple) and it and it[0] == 'call' and it[1].split('::')[-1] == 'into_iter':
+                    it = strip_transparent(it[2][0])
+                dom = _iter_domain(ctx, res, it)
+                if dom[0] is not None and any(x[0] == 'not-in' and 'requested_nodes' in x[1] for x in dom[1]):
+                    unreq = True
+                    srcs.add(fmt(dom[0]))
+        if not unreq:
+            return False, 'the running minimum is lowered for a node that was not tested against requested_nodes'
+    # the initial value is what the minimum is compared with
+    init_ok = False
+    for q in s.paths:
+        if init[0][2] in q.blocks and X[3] in q.blocks:
+            init_ok = True
+            break
+    d_pick = _iter_domain(ctx, res, pick[2][0])
+    # (the list is msg.nodes_v4 or msg.nodes_v6 depending on the socket family: the loop and the pick use the same local)
+    same_src = d_pick[0] is not None and fmt(d_pick[0]) in srcs
+    sub = all(x[0] == 'not-in' and 'requested_nodes' in x[1] for x in d_pick[1])
+    if not (same_src and sub and init_ok):
+        return False, 'minimum over %s but the round is picked from %s %s' % (fmt(src)[:60] if src is not None else None, fmt(d_pick[0])[:60], d_pick[1])
+    # D must be the initial value: the init statement copies the local that holds D
+    return True, ''
+
+
 def rule_round_nonempty(ctx, res):
     """ROUND-NONEMPTY: an iterative round is started only with at least one node to query.
 
@@ -1026,8 +1166,12 @@ def rule_round_nonempty(ctx, res):
         for e in picks:
             n += 1
             if len(folds) != 1:
-                ok = False
-                why = 'no single `fold(..) < dist_to_beat` condition guards the pick'
+                # the same minimum written as a loop: `let mut next = dist_to_beat; for n in nodes { if requested.contains(n) { continue }
+                # let d = target ^ n.id; if d < next { next = d } }` followed by `if next < dist_to_beat { pick .. }`
+                okl, whyl = _min_loop_guard(ctx, res, b, s, p, e)
+                if not okl:
+                    ok = False
+                    why = whyl or 'no single `fold(..) < dist_to_beat` condition guards the pick'
                 continue
             l = folds[0]
             fold = l[1]
